@@ -4,7 +4,7 @@
    the regenerated kernel fills `out` (any initial contents, num_reps x ts_length) with exactly X and its bounds flag is
    true.  The kernels call the regenerated searchsorted of Gen/Kernels.v (tie: C10/TieGen2.v). *)
 From Coq Require Import ZArith List Bool Arith Lia.
-From QE Require Import Base.Num Base.Pivot Gen.Kernels Gen.Kernels2 Gen.Kernels3 Base.PivotTie C10.Model C10.Proofs C10.TieGen C10.TieGen2.
+From QE Require Import Base.Num Base.Pivot Gen.Kernels Gen.Kernels2 Gen.Kernels3 Base.GenLemmas C10.Model C10.Proofs C10.TieGen C10.TieGen2.
 Import ListNotations.
 
 Section Tie.
